@@ -234,7 +234,8 @@ def make_shards(tier, seed=1):
         # arity 12 once more, instantiated by macro as the generator does (`if *item >= 12`)
         rng = Rng(seed).fork("arity12")
         shards.append(Shard('m12', choice_shapes(12, tier) + seq_shapes(12, tier) + random_choice_shapes(12, tier, rng), macro_from=12))
-    shards.append(Shard('lf', leaf_shapes(tier) + rep_shapes(tier)))
+    # the leaf / repetition catalogue goes first: its (simpler) shapes are reported first when something breaks
+    shards.insert(0, Shard('lf', leaf_shapes(tier) + rep_shapes(tier)))
     return shards
 
 
